@@ -44,6 +44,13 @@ func (d *Dialer) Script(o ...DialOutcome) {
 	d.mu.Unlock()
 }
 
+// ClearScript drops dial outcomes that were scripted but not consumed.
+func (d *Dialer) ClearScript() {
+	d.mu.Lock()
+	d.script = nil
+	d.mu.Unlock()
+}
+
 func (d *Dialer) addrs(i int) (net.Addr, net.Addr) {
 	if d.Network == "udp" {
 		return &net.UDPAddr{IP: net.IPv4(127, 0, 0, 1), Port: 40000 + i}, &net.UDPAddr{IP: net.IPv4(192, 0, 2, 53), Port: 53}
